@@ -315,24 +315,29 @@ fn some_count<const N: usize>(b: &[Option<RxBuffer>; N]) -> usize {
     c
 }
 
+/// offered feature word with only VERSION_1 symbolic (keeps the receive scenarios small)
+fn any_version() -> u64 {
+    if kani::any() { 1 << 32 } else { 0 }
+}
+
 /// K<= (queue size 2, buffers of 1528 bytes, header format symbolic, one frame of 3 symbolic bytes completed on
 /// token 0): all buffers posted by `new`; `can_recv`/`receive` agree with the used ring; the received buffer is slot
-/// 0, its packet is exactly the bytes the device wrote after the header, packet_len = used length - header size;
-/// `recycle_rx_buffer` posts the same memory again and refills the slot: posted + caller-held == 2 throughout.
+/// 0 (same memory), its packet is exactly the bytes the device wrote after the header, packet_len = used length -
+/// header size; the other slot is untouched: posted (1) + caller-held (1) == 2.
 #[kani::proof]
 #[kani::unwind(34)]
-fn k16_rx_cycle() {
+fn k16_rx_receive() {
     cap_reset();
     let mut t = KTransport::new(DeviceType::Network);
-    let f = any_features();
+    let f = any_version();
     t.device_features = f;
     let mut net = VirtIONet::<NHal, KTransport, 2>::new(t, 1528).unwrap();
     let hdr: usize = if f & (1 << 32) != 0 { 12 } else { 10 };
-    assert!(some_count(&net.rx_buffers) == 2, "C16: not every receive buffer is posted after new");
+    assert!(net.rx_buffers[0].is_some() && net.rx_buffers[1].is_some(), "C16: not every receive buffer is posted after new");
     assert!(unsafe { CAP.n == 2 && CAP.len[0] == 1528 && CAP.dir[0] == 1 && CAP.len[1] == 1528 && CAP.dir[1] == 1 }, "C16: receive buffers not posted whole, device-writable");
     assert!(!net.can_recv(), "C16: can_recv with an empty used ring");
     assert!(matches!(net.receive(), Err(Error::NotReady)), "C16: receive with nothing used must be NotReady");
-    assert!(some_count(&net.rx_buffers) == 2, "C16: a NotReady receive changed the slots");
+    assert!(net.rx_buffers[0].is_some() && net.rx_buffers[1].is_some(), "C16: a NotReady receive changed the slots");
     // the device writes a 3-byte frame after the header of buffer 0 and reports hdr + 3 bytes
     let frame: [u8; 3] = kani::any();
     let p0 = unsafe { CAP.ptr[0] };
@@ -345,13 +350,32 @@ fn k16_rx_cycle() {
     assert!(p.len() == 3 && p[0] == frame[0] && p[1] == frame[1] && p[2] == frame[2], "C16: received frame differs from what the device wrote");
     assert!(b.as_bytes().as_ptr() as *mut u8 == p0, "C16: received buffer is not the one posted under the token");
     assert!(net.rx_buffers[0].is_none() && net.rx_buffers[1].is_some(), "C16: slot bookkeeping after receive");
-    // posted (1) + caller-held (1) == 2; give it back
+    core::mem::forget(b);
+    core::mem::forget(net);
+}
+
+/// K<= (queue size 2, buffers of 1528 bytes, VERSION_1 negotiated (concrete), an empty frame completed on token 0,
+/// then recycle): the buffer handed out is given back: `recycle_rx_buffer` succeeds, posts the same memory again,
+/// whole, and refills the slot under its token: posted buffers return to the queue size.
+#[kani::proof]
+#[kani::unwind(34)]
+fn k16_rx_recycle() {
+    cap_reset();
+    let mut t = KTransport::new(DeviceType::Network);
+    let f: u64 = 1 << 32;
+    t.device_features = f;
+    let mut net = VirtIONet::<NHal, KTransport, 2>::new(t, 1528).unwrap();
+    let hdr: u32 = if f & (1 << 32) != 0 { 12 } else { 10 };
+    let p0 = unsafe { CAP.ptr[0] };
+    dev_complete_first(RX_USED, 0, hdr);
+    let b = net.receive().unwrap();
+    assert!(b.idx == 0 && b.packet_len() == 0, "C16: empty frame: packet length 0");
+    assert!(net.rx_buffers[0].is_none() && net.rx_buffers[1].is_some(), "C16: slot bookkeeping after receive");
     let n0 = unsafe { CAP.n };
     assert!(net.recycle_rx_buffer(b) == Ok(()), "C16: recycle failed although a slot is free");
-    assert!(some_count(&net.rx_buffers) == 2, "C16: posted buffers do not return to the queue size after recycling");
+    assert!(net.rx_buffers[0].is_some() && net.rx_buffers[1].is_some(), "C16: posted buffers do not return to the queue size after recycling");
     assert!(unsafe { CAP.n == n0 + 1 && CAP.ptr[n0] == p0 && CAP.len[n0] == 1528 && CAP.dir[n0] == 1 }, "C16: recycled buffer not posted again, whole");
-    let t0 = net.rx_buffers[0].as_ref().unwrap().idx;
-    assert!(t0 == 0, "C16: recycled buffer recorded under a token different from its slot");
+    assert!(net.rx_buffers[0].as_ref().unwrap().idx == 0, "C16: recycled buffer recorded under a token different from its slot");
     core::mem::forget(net);
 }
 
